@@ -951,6 +951,13 @@ func txcodecDriver(cfg Config, out *Out) error {
 			if err != nil {
 				return err
 			}
+			// quick tier: the property oracle judges every lookup; the Coq model is evaluated on the
+			// lookups of every third transaction (parsing the case terms dominates the run time).
+			// Thorough tier, corpus and replays: on all of them.
+			if cfg.Tier == "quick" && i%3 != 0 {
+				uc.Coq, uc.CoqList = "", ""
+				uc.Tags = append(uc.Tags, "unwrap:model-not-evaluated(quick tier)")
+			}
 			out.Emit(uc)
 			if tcSmallWrappable(in) {
 				partners[lr.Intn(len(partners))] = in
